@@ -342,7 +342,7 @@ class _Stuck(KeyboardInterrupt):
     KeyboardInterrupt/SystemExit travel through callbacks and tasks)."""
 
 
-STUCK_AFTER = 60.0     # wall seconds for one replayed history (they take milliseconds; 64 x 64 ones tens of milliseconds)
+STUCK_AFTER = 3.0     # CPU seconds for one replayed history (they take milliseconds; 64 x 64 ones tens of milliseconds)
 
 
 def _watchdog(seconds):
@@ -350,19 +350,21 @@ def _watchdog(seconds):
 
     def on_alarm(signum, frame):
         raise _Stuck()
+    # CPU time of this process, not wall time: a loaded machine must not look like a hanging implementation
     if seconds:
-        signal.signal(signal.SIGALRM, on_alarm)
-        signal.setitimer(signal.ITIMER_REAL, seconds)
+        signal.signal(signal.SIGVTALRM, on_alarm)
+        signal.setitimer(signal.ITIMER_VIRTUAL, seconds)
     else:
-        signal.setitimer(signal.ITIMER_REAL, 0)
-        signal.signal(signal.SIGALRM, signal.SIG_DFL)
+        signal.setitimer(signal.ITIMER_VIRTUAL, 0)
+        signal.signal(signal.SIGVTALRM, signal.SIG_DFL)
 
 
 def _replay(items):
     """items: (model number, edge of the implementation's grid, edge number | (incoming edge number, edge number))."""
     res = []
-    for mi, edge_size, item in items:
+    for n_item, (mi, edge_size, item) in enumerate(items):
         g, m = _GS[mi]
+        stuck = False
         pre = []
         if isinstance(item, tuple):
             pre, ei = [g.edges[item[0]]], item[1]
@@ -384,21 +386,24 @@ def _replay(items):
                 hist.append(e["act"])
                 got = impl.step(e["act"])
             except _Stuck:
-                got = {"raised": "does not return (%.0f s) in event %d of the history" % (STUCK_AFTER, len(hist))}
-                hist = hist + [e["act"]] if hist[-1:] != [e["act"]] else hist
+                stuck = True
+                got = {"raised": "does not return (%.0f s of CPU) in event %d of the history; %d further histories of this batch not replayed"
+                                 % (STUCK_AFTER, len(hist), len(items) - n_item - 1)}
             if got != exp:
                 res.append({"model": mi, "history": hist, "start": {k: root[k] for k in ("kind", "ov")}, "grid": edge_size,
                             "expected": exp, "observed": got,
                             "differs": sorted(k for k in set(exp) | set(got) if exp.get(k) != got.get(k))})
         finally:
             try:
-                _watchdog(10.0)
+                _watchdog(STUCK_AFTER)
                 if impl is not None:
                     impl.close()
             except _Stuck:
                 pass
             finally:
                 _watchdog(0)
+        if stuck:
+            break
     return res
 
 
